@@ -135,6 +135,8 @@ def manager_payload(t: int, payload: bytes, timecode: bool) -> Optional[Dict[str
         return {"k": "none"}
     if t in (MT["CLIENT_INFO"], MT["CLIENT_CLOSED"]) and len(payload) == CLIENTINFO.size:
         addr, uid, pid, mid, lg, uq, port, name = CLIENTINFO.unpack(payload)
+        if mid == 0 and uid == 0 and cstr(name) == "message_manager":
+            pid = 0         # the manager's own entry carries the pid of the process under test
         return {"k": "ci", "id": mid, "logger": lg, "uniq": uq, "name": cstr(name), "pid": pid, "uid": uid}
     if t == MT["FAILED"] and len(payload) == FAILED.size + 48:
         mid, _, _, _, tof = FAILED.unpack(payload[: FAILED.size])
